@@ -8,7 +8,7 @@ ID = "C06"
 LEVEL = "exploration"
 ENGINE = "E1 product enumerator (deviation-bounded)"
 TECHNIQUE = ("exhaustive enumeration of (a) every grammar keyword x case x column position x following text x key-list membership as a column "
-             "name and (b) 7 identifier forms in each of 16 naming positions (1 deviating position, all positions uniform; thorough: every "
+             "name and (b) 21 identifier forms in each of 17 naming positions (1 deviating position, all positions uniform; thorough: every "
              "pair) under both normalize_names settings, against a substitution reference model")
 LEVEL_TEXT = ("(a) All grammar keywords (frozen list of 87 + whatever the working tree's token table adds) minus the 13 excluded clause openers, "
               "in UPPER/lower/Capitalised spelling, as first/middle/last column with 4 following texts and inside PRIMARY KEY / UNIQUE lists. "
@@ -17,7 +17,8 @@ LEVEL_TEXT = ("(a) All grammar keywords (frozen list of 87 + whatever the workin
               "once; thorough: all pairs) under normalize_names False/True. Expected output = the plain-name result with each name replaced "
               "by its written form (False) or that form minus exactly one outer delimiter pair (True); everything else must be unchanged."
               " Identifier forms also include delimited names that contain their own doubled delimiter or a dash, and the words ASC / DESC (compared by value in grammar actions) in lower and capitalised spelling as column names inside key lists."
-              " Keyword-named columns are also placed after a column that carries a CHECK clause.")
+              " Keyword-named columns are also placed after a column that carries a CHECK clause."
+              " Since wave 5 there are 17 naming positions (the in-table KEY name (col) clause) and 21 identifier forms, incl. names that begin with '#', with the letters array / Arrays / ARRAY_, keyword-shaped names per position, a quoted name containing a dot.")
 LEVEL_NOTE = ("Identifier forms: lower, Mixed, UPPER, x_1, \"Dq\", `bt`, [br]. Spelling is identical between a declaration and the clauses that "
               "cite it. The plain-name result is itself validated against explicit JSON paths once per run.")
 RULE = ("case = (keyword, case, position, context, listing) or (form assignment to naming positions, normalize flag); non-trivial = the "
